@@ -9,6 +9,9 @@ type Case struct {
 	Index  int      `json:"index"`
 	Ops    []Op     `json:"ops"`
 	Tags   []string `json:"tags"`
+	// Equal lists groups of op indexes whose outputs must be identical
+	// (metamorphic checks made on the Go side, e.g. all bracketings of a merge).
+	Equal [][]int `json:"equal,omitempty"`
 }
 
 func (c *Case) tag(t string) {
@@ -557,6 +560,96 @@ func (g *Gen) StatsCase() *Case {
 	c.Ops = append(c.Ops, Op{Code: OpReload, Slot: last, Kind: g.R.Intn(2)})
 	for _, f := range names {
 		c.Ops = append(c.Ops, Op{Code: OpStats, Slot: last + 1, F: f})
+	}
+	return c
+}
+
+// AssocCase: C17 - the flat merge, two left bracketings (deletions applied in
+// the inner merge, or translated through its DocumentNumbers and applied in
+// the outer merge), a right bracketing and the single-segment merge of the
+// result must all be observationally identical, statistics included.
+func (g *Gen) AssocCase() *Case {
+	c := &Case{Family: "assoc"}
+	r := g.R
+	k := 2 + r.Intn(3)
+	var ops []Op
+	counts := make([]int, k)
+	drops := make([]MergeIn, k)
+	for i := 0; i < k; i++ {
+		n := g.smallSize()
+		if n > 24 {
+			n = 24
+		}
+		cm := g.ChunkMode()
+		b := g.Batch(BatchOpts{NDocs: n, IDPrefix: string(rune('a' + i))})
+		c.tagBatch(b, cm)
+		ops = append(ops, Op{Code: OpBuild, CM: cm, Batch: b})
+		counts[i] = n
+		d, isNil, _ := g.Drops(n)
+		drops[i] = MergeIn{Slot: i, Drops: d, DropsNil: isNil}
+		if len(d) > 0 && i < k-1 && k >= 3 {
+			c.tag("three_inputs_drop_nonlast")
+		}
+		if len(d) > 0 {
+			c.tag("drops")
+		}
+	}
+	slot := k - 1
+	next := func() int { slot++; return slot }
+	var obs []int
+	addObs := func(s int) {
+		ops = append(ops, Op{Code: OpObsAll, Slot: s})
+		obs = append(obs, len(ops)-1)
+	}
+	cp := func(a []MergeIn) []MergeIn { return append([]MergeIn(nil), a...) }
+	// flat
+	ops = append(ops, Op{Code: OpMerge, CM: g.ChunkMode(), Ins: cp(drops)})
+	flat := next()
+	addObs(flat)
+	j := 1 + r.Intn(k-1)
+	// left bracketing, deletions inside
+	ops = append(ops, Op{Code: OpMerge, CM: g.ChunkMode(), Ins: cp(drops[:j])})
+	m1 := next()
+	ops = append(ops, Op{Code: OpMerge, CM: g.ChunkMode(), Ins: append([]MergeIn{{Slot: m1, DropsNil: true}}, cp(drops[j:])...)})
+	addObs(next())
+	// left bracketing, deletions translated through the inner merge's table
+	var nodrops []MergeIn
+	var via []ViaRef
+	for i := 0; i < j; i++ {
+		nodrops = append(nodrops, MergeIn{Slot: i, DropsNil: true})
+	}
+	ops = append(ops, Op{Code: OpMerge, CM: g.ChunkMode(), Ins: nodrops})
+	n1 := next()
+	for i := 0; i < j; i++ {
+		via = append(via, ViaRef{MergeSlot: n1, Input: i, Orig: append([]uint64{}, drops[i].Drops...)})
+	}
+	ops = append(ops, Op{Code: OpMerge, CM: g.ChunkMode(), Ins: append([]MergeIn{{Slot: n1, Via: via}}, cp(drops[j:])...)})
+	addObs(next())
+	// right bracketing
+	ops = append(ops, Op{Code: OpMerge, CM: g.ChunkMode(), Ins: cp(drops[j:])})
+	r1 := next()
+	ops = append(ops, Op{Code: OpMerge, CM: g.ChunkMode(), Ins: append(cp(drops[:j]), MergeIn{Slot: r1, DropsNil: true})})
+	addObs(next())
+	// single-segment merge of the flat result
+	ops = append(ops, Op{Code: OpMerge, CM: g.ChunkMode(), Ins: []MergeIn{{Slot: flat, DropsNil: true}}})
+	addObs(next())
+	// single-segment merge of a built segment (statistics change flavour: compared with the model only)
+	ops = append(ops, Op{Code: OpMerge, CM: g.ChunkMode(), Ins: []MergeIn{{Slot: 0, DropsNil: true}}})
+	ops = append(ops, Op{Code: OpObsAll, Slot: next()})
+	c.Ops = ops
+	c.Equal = [][]int{obs}
+	return c
+}
+
+// FooterCase: C11 - persist built, merged and loaded segments; the model parses
+// the real bytes and recomputes the CRC.
+func (g *Gen) FooterCase() *Case {
+	c := &Case{Family: "footer"}
+	c.Ops, _ = g.mergeTree(c, 0)
+	last := g.lastSlot(c.Ops)
+	c.Ops = append(c.Ops, Op{Code: OpReload, Slot: last, Kind: g.R.Intn(2)})
+	for s := 0; s <= last+1; s++ {
+		c.Ops = append(c.Ops, Op{Code: OpFooter, Slot: s})
 	}
 	return c
 }
